@@ -85,12 +85,80 @@ def interleave(rng, threads):
     return out
 
 
+YAML_LINE = re.compile(r'^(cal (savestr|loadstr|save|load|resave) |pt .*\b(export|import|yamltree)\b)')
+
+
+def msan_stage(chk, rng, n_hist, n_num):
+    """the same kinds of histories through a MemorySanitizer build (clang): a value the library never wrote must not decide a branch,
+    an address or what is written out.  libyaml is not instrumented, so the calls that reach it are left out of these histories."""
+    from props import c02
+    mexe = vlib.build_msan()
+    env = {'MSAN_OPTIONS': 'exitcode=98:halt_on_error=1:print_stats=0:allocator_may_return_null=1:check_printf=1'}
+
+    def bad(ls):
+        o, r, e = vlib.run_lines(mexe, ls, timeout=600, env=env)
+        return 'use-of-uninitialized-value' in e
+
+    def one(lines, what):
+        out, rc, err = vlib.run_lines(mexe, lines, timeout=600, env=env)
+        chk.evaluations += 1
+        chk.count('msan_calls', len(out))
+        if 'use-of-uninitialized-value' in err:
+            small = vlib.shrink(lines[:len(out) + 1], bad) if bad(lines[:len(out) + 1]) else lines
+            o2, rc2, err2 = vlib.run_lines(mexe, small, timeout=600, env=env)
+            chk.violation('uninitialised', '%s: the library read memory it never wrote (MemorySanitizer, %d calls reduced to %d):\n%s' % (what, len(lines), len(small), (err2 if 'use-of-uninitialized-value' in err2 else err)[-2200:]), small)
+            return False
+        if rc != 0 or len(out) != len(lines):
+            chk.violation('msan-crash', '%s: the MemorySanitizer build stopped at call %d of %d (exit %s):\n%s' % (what, len(out), len(lines), rc, err[-1200:]), lines[:len(out) + 1])
+            return False
+        return True
+
+    for k in range(n_hist):
+        vd_lines, _ = c15.gen_history(rng, rng.randint(20, 60))
+        pt_lines = [l for l in c13.gen_history(rng, rng.randint(20, 50)) if not l.endswith(' live')]
+        threads = [vd_lines, pt_lines, cal_thread(rng, 0, 0), cal_thread(rng, 1, 2), file_thread(rng, 5)]
+        lines = [l for l in interleave(rng, threads) if not YAML_LINE.match(l)] + ['cal live']
+        if not one(lines, 'interleaved history'):
+            return
+        chk.count('msan_histories')
+    # calibrations of every type: exactly determined, over-determined, with unknown parameters, with and without the measurement-error
+    # model (iterated weighted solves), solved, applied
+    for k in range(n_num):
+        for typ in calsim.TYPES:
+            p = 2
+            scs = []
+            for kind in ('extra1', 'extra2', 'trl', 'trla', 'solr', 'repeat'):
+                if kind in ('trl', 'trla', 'solr') and typ in ('UE14', 'E12'):
+                    continue
+                s_ = c02.build(rng, kind, typ, rng.randint(1, 2), rng.choice(['m', 'ab']), merr=rng.random() < 0.5)
+                if s_:
+                    scs.append((kind, s_))          # (a complete script: solve, parameter values, apply, free)
+            sc = c02.Sc(rng, typ, p, p, rng.randint(1, 3), form=rng.choice(['m', 'ab'])).begin()
+            if rng.random() < 0.7:
+                sc.lines.append('cal new_set_m_error %d 1 N S %s T %s' % (sc.n, vlib.d2h(1e-6), vlib.d2h(1e-3)))
+            sc.solt(variety=rng)
+            if typ not in ('T16', 'U16'):
+                for port in (1, 2):
+                    g_ = complex(rng.uniform(-0.6, 0.6), rng.uniform(-0.6, 0.6))
+                    sc.std1(port, sc.scalar(g_), g_)
+            sc.lines.append('cal solve %d' % sc.n)
+            sc.add_calibration()
+            sc.lines.append(sc.apply_line(0, sc.random_dut()))
+            sc.lines += ['cal get_info %d 0' % sc.c, 'cal free %d' % sc.c, 'cal live']
+            scs.append(('over-determined', sc))
+            for kind, s_ in scs:
+                if not one(s_.lines, 'calibration %s %s' % (kind, typ)):
+                    return
+                chk.count('msan_calibrations')
+
+
 def run(chk):
     rng = random.Random(chk.seed * 97 + 3)
     broken = []
     if os.environ.get('VERIF_DEV_NOPROOF') != '1':
         c15.proof_side(chk, ['Libvna.Props.C03'], THEOREMS, FILES, broken)
-    chk.trusted += ['GCC AddressSanitizer / UBSan / LeakSanitizer and the link-time allocation accounting of the harness; libyaml and libc are outside the accounting',
+    chk.trusted += ['clang MemorySanitizer for the uninitialised-read stage (libyaml, libm and libc uninstrumented: calls that reach libyaml are not part of that stage)',
+                    'GCC AddressSanitizer / UBSan / LeakSanitizer and the link-time allocation accounting of the harness; libyaml and libc are outside the accounting',
                     'UBSan nonnull-attribute (memcpy / memset of length 0 on NULL) is deliberately not counted']
     chk.checker_cmd = 'cd lean && lake build Libvna.Props.C03 && #print axioms'
     exe, _ = vlib.build_c()
@@ -143,6 +211,8 @@ def run(chk):
     if not chk.violations:
         from props import c02
         c02.resolve_histories(chk, exe, rng, 3 if quick else 40)
+    if not chk.violations:
+        msan_stage(chk, rng, 3 if quick else 60, 1 if quick else 12)
     chk.samples = [[l[:90] for l in lines_last[:10]]]
     if broken and not chk.violations:
         chk.violation('obligation', 'proof/correspondence obligations that no longer check:\n' + '\n'.join(broken[:30]), nofail=True)
